@@ -1004,7 +1004,7 @@ fn prog_tags(p: &P, under_async: bool, out: &mut BTreeSet<&'static str>) {
     }
 }
 
-/// the known-finding class (F-C20-1): a leaf that looks its context up lazily (reactive closure, `For`) in the
+/// the shape of the former finding F-C20-1 (repaired by hooks/fix-c20-1; kept as a case tag): a leaf that looks its context up lazily (reactive closure, `For`) in the
 /// view produced by a Suspend that is not inside a Suspense, with no Provider/Suspense between them: it is
 /// rendered by the response stream's poll, outside every `ScopedFuture` / `OwnedView`
 fn exposed(p: &P, late: bool, covered: bool) -> bool {
@@ -1018,7 +1018,7 @@ fn exposed(p: &P, late: bool, covered: bool) -> bool {
     }
 }
 
-/// a Suspense / another async boundary / a Provider in the late view of a bare Suspend (class F-C20-2 for
+/// a Suspense / another async boundary / a Provider in the late view of a bare Suspend (former class F-C20-2, repaired, for
 /// Suspense: `OwnedView::to_html_async_with_buf` parks its owner in the AMBIENT owner's cleanups)
 fn late_kind(p: &P, late: bool, out: &mut BTreeSet<&'static str>) {
     match p {
@@ -1302,7 +1302,7 @@ impl G {
         if depth == 0 {
             return self.sync_leaf(c);
         }
-        let allow_s = !c.in_susp_suspend && !(c.late && c.late_under_v);
+        let allow_s = !c.in_susp_suspend && !(c.safe && c.late && c.late_under_v);
         let allow_r = !c.in_susp_suspend;
         let allow_u = !c.no_u;
         match self.rng.below(17) {
@@ -1314,7 +1314,7 @@ impl G {
                 let mut c2 = c;
                 if c.late {
                     c2.late_under_v = true;
-                    c2.no_u = true;
+                    c2.no_u = c.safe;
                 }
                 P::V(k, Box::new(self.prog(depth - 1, c2)))
             }
@@ -1332,7 +1332,7 @@ impl G {
             7..=9 if allow_u => {
                 let mut c2 = c;
                 if c.late {
-                    c2.no_u = true;
+                    c2.no_u = c.safe;
                 }
                 c2.in_susp = true;
                 c2.late = false;
@@ -1360,7 +1360,9 @@ fn action_gates(p: &P, out: &mut Vec<u32>) {
 
 fn gen_case(rng: &mut Rng, name: &str, out: &mut String, tier: &str) {
     let nreq = if rng.chance(7, 10) { 2 } else { 3 };
-    let safe = rng.chance(2, 3);
+    // since the repairs fix-c20-1/3/4 nothing has to be avoided any more (lazy leaves, Providers, Suspenses, cleanups and
+    // Actions in late views; aborts of pages with cleanups): `safe` stays as a switch for replaying against an old tree
+    let safe = false;
     let mut progs = vec![];
     let mut has_cleanup = vec![];
     let mut no_abort = vec![];
@@ -1388,7 +1390,9 @@ fn gen_case(rng: &mut Rng, name: &str, out: &mut String, tier: &str) {
         // the gate of an Action is only fired by drop/abort/end (when its unscoped future runs is then determinate)
         let mut dg = vec![];
         action_gates(&p, &mut dg);
-        gs.retain(|g| !dg.contains(g));
+        if safe {
+            gs.retain(|g| !dg.contains(g));
+        }
         progs.push(gs);
         let mut t = BTreeSet::new();
         prog_tags(&p, false, &mut t);
@@ -1426,14 +1430,14 @@ fn gen_case(rng: &mut Rng, name: &str, out: &mut String, tier: &str) {
             }
             0..=7 => out.push_str(&format!("poll {}\n", rng.below(4))),
             8..=10 => out.push_str(&format!("ps {r}\n")),
-            _ if no_abort[r] || rng.chance(1, 2) => {
+            _ if (safe && no_abort[r]) || rng.chance(1, 2) => {
                 dropped[r] = true;
                 out.push_str(&format!("drop {r}\n"));
             }
             _ => {
                 // client abort while some request's arena is current; an `on_cleanup` of the aborted request reading
                 // an arena item under a FOREIGN arena is the known class F-C20-4 (per-request arenas only): corpus
-                let b = if has_cleanup[r] { r } else { *rng.pick(&live) };
+                let b = if safe && has_cleanup[r] { r } else { *rng.pick(&live) };
                 dropped[r] = true;
                 out.push_str(&format!("abort {r} {b}\n"));
             }
